@@ -367,6 +367,31 @@ fn c01_like(tier: Tier, oracles: Oracles, with_drop: bool) -> Vec<Scenario> {
         let sc = Scenario::new("big-keys-m2", Cfg::default(), vec![tx(setup_ops), Action::Reopen], Box::new(txs_of(&bops, 2, with_drop, true)), if q { 2 } else { 3 }, oracles);
         out.push(sc);
     }
+    // boundary sizes at page size 1024 (page header 40, leaf element 32): five entries whose node is
+    // one byte short of a page / exactly a page / one byte more (the split rule compares with the
+    // page size), and a single entry whose node ends one byte before / at / after the end of its
+    // second page (the overflow count is a ceiling division)
+    {
+        let mut setup_ops = vec![OpSpec::bucket("create", &[], "z"), OpSpec::bucket("create", &[], "o")];
+        for i in 0..4 {
+            setup_ops.push(OpSpec::put(&["z"], &format!("z{}", i), "s*160"));
+        }
+        setup_ops.push(OpSpec::put(&["z"], "z4", "s*174"));
+        setup_ops.push(OpSpec::put(&["o"], "o", "t*1975"));
+        let mut zops = vec![];
+        for v in ["s*173", "s*174", "s*175"] {
+            zops.push(OpSpec::put(&["z"], "z4", v));
+            zops.push(OpSpec::put(&["z"], "z0", v));
+        }
+        for v in ["t*1974", "t*1975", "t*1976", "t*951", "t*952"] {
+            zops.push(OpSpec::put(&["o"], "o", v));
+        }
+        zops.push(OpSpec::put(&["z"], "z5", "s*1"));
+        zops.push(OpSpec::del(&["z"], "z2"));
+        zops.push(OpSpec::put(&["o"], "p", ""));
+        let sc = Scenario::new("boundary-sizes-m2", Cfg::default(), vec![tx(setup_ops), Action::Reopen], Box::new(txs_of(&zops, 2, with_drop, true)), if q { 2 } else { 3 }, oracles);
+        out.push(sc);
+    }
     // values of many pages: a single commit that has to extend the file by more than one step
     {
         let hops = vec![
